@@ -92,7 +92,7 @@ theorem doEnqueue_measure (s : St) (w : Nat) (inp : Inp) (hw : w < s.ws.length) 
     simp only [phi]
     omega
 
-theorem markDead_nc {c : Cfg} (hc : Plain c) (s : St) (w : Nat) (hw : w < s.ws.length) (hcl : (getW s w).closed = false) :
+theorem markDead_nc {c : Cfg} (hc : Retrying c) (s : St) (w : Nat) (hw : w < s.ws.length) (hcl : (getW s w).closed = false) :
     nc (markDead c s w) + 1 = nc s := by
   have h := nc_setW { s with retries := s.retries ++ (getW s w).ppw, pending := s.pending - (getW s w).ppw.length } w
     { getW s w with ppw := [], closed := true } hw
@@ -105,20 +105,20 @@ theorem markDead_nc {c : Cfg} (hc : Plain c) (s : St) (w : Nat) (hw : w < s.ws.l
   omega
 
 theorem unused_nc (c : Cfg) (s : St) (inp : Inp) (fr : Bool) : nc (unused c s inp fr) = nc s := by
-  unfold unused; split; rfl; split <;> rfl
+  unfold unused putBack; split; rfl; split <;> rfl
 
-theorem unused_phi {c : Cfg} (hc : Plain c) (s : St) (inp : Inp) (fr : Bool) : phi (unused c s inp fr) = phi s + 4 := by
-  unfold unused
+theorem unused_phi {c : Cfg} (hc : Retrying c) (s : St) (inp : Inp) (fr : Bool) : phi (unused c s inp fr) = phi s + 4 := by
+  unfold unused putBack
   simp only [hc.retry, Bool.not_true, Bool.false_eq_true, if_false]
   split <;> simp [phi, W] <;> omega
 
 /-- the re-dispatch loop never increases the measure -/
-theorem dec_settle {c : Cfg} (hc : Plain c) {pick : List Nat → Option Nat} (hp : PickOK pick) :
-    ∀ (fuel : Nat) (s : St), Dec s (settle c pick fuel s) := by
+theorem dec_settle {c : Cfg} (hc : Retrying c) {pick : List Nat → Option Nat} (hp : PickOK pick) :
+    ∀ (fuel : Nat) (skip : List Nat) (s : St), Dec s (settle c pick fuel skip s) := by
   intro fuel
   induction fuel with
   | zero =>
-    intro s
+    intro skip s
     simp only [settle]
     split
     · exact Dec.refl s
@@ -126,35 +126,37 @@ theorem dec_settle {c : Cfg} (hc : Plain c) {pick : List Nat → Option Nat} (hp
       · exact Dec.refl s
       · exact Dec.of_eq rfl (Nat.le_refl _)
   | succ fuel ih =>
-    intro s
-    simp only [settle, giveUp_eq hc.toRetrying]
+    intro skip s
+    simp only [settle, giveUp_eq hc]
     cases hr : s.retries with
     | nil => exact Dec.refl s
     | cons inp rest =>
       simp only
-      cases hpk : pick (idle s) with
+      cases hpk : pick (avail s skip) with
       | none => exact Dec.refl s
       | some w =>
-        simp only [hc.noFn, Bool.false_eq_true, if_false]
-        obtain ⟨hw, _, hcl⟩ := mem_idle (hp _ _ hpk)
+        simp only
+        obtain ⟨hw, _, hcl⟩ := mem_idle (mem_avail (hp _ _ hpk))
         have hnc0 : nc { s with retries := rest } = nc s := rfl
         have hphi0 : phi { s with retries := rest } + 4 = phi s := by
           simp only [phi, hr, List.length_cons, W]; omega
+        refine Dec.trans ?_ (ih _ _)
         split
-        · obtain ⟨n1, p1⟩ := doEnqueue_measure { s with retries := rest } w inp hw
-          have h1 : Dec s (doEnqueue { s with retries := rest } w inp) := Dec.of_eq (by rw [n1, hnc0]) (by omega)
-          exact Dec.trans h1 (ih _)
-        · have n1 := markDead_nc hc { s with retries := rest } w hw hcl
-          have d2 := (ih (markDead c { s with retries := rest } w)).nc_le
-          have n3 := unused_nc c (settle c pick fuel (markDead c { s with retries := rest } w)) inp true
-          have d4 := (ih (unused c (settle c pick fuel (markDead c { s with retries := rest } w)) inp true)).nc_le
-          exact Or.inl (by omega)
+        · -- refused: the input is back at the head of the retry list, nothing changed
+          exact Dec.of_eq rfl (by simp only [phi, hr, List.length_cons, W]; omega)
+        · split
+          · obtain ⟨n1, p1⟩ := doEnqueue_measure { s with retries := rest } w inp hw
+            exact Dec.of_eq (by rw [n1, hnc0]) (by omega)
+          · have n1 := markDead_nc hc { s with retries := rest } w hw hcl
+            have d2 := (ih [] (markDead c { s with retries := rest } w)).nc_le
+            have n3 := unused_nc c (settle c pick fuel [] (markDead c { s with retries := rest } w)) inp true
+            exact Or.inl (by omega)
 
-theorem sdec_handleDeath {c : Cfg} (hc : Plain c) {pick : List Nat → Option Nat} (hp : PickOK pick)
+theorem sdec_handleDeath {c : Cfg} (hc : Retrying c) {pick : List Nat → Option Nat} (hp : PickOK pick)
     (s : St) (w : Nat) (hw : w < s.ws.length) (hcl : (getW s w).closed = false) : SDec s (handleDeath c pick s w) := by
   unfold handleDeath
   have n1 := markDead_nc hc s w hw hcl
-  have d2 := (dec_settle hc hp (s.ws.length + 1) (markDead c s w)).nc_le
+  have d2 := (dec_settle hc hp ((s.ws.length + 1) * (s.ws.length + 1)) [] (markDead c s w)).nc_le
   exact Or.inl (by omega)
 
 theorem nextInputs_measure (s : St) :
@@ -176,10 +178,10 @@ theorem nextInputs_measure (s : St) :
       · rename_i a rest hs
         exact ⟨rfl, by simp only [phi, hs, List.length_cons, W]; omega⟩
 
-theorem dec_tryEnqueue {c : Cfg} (hc : Plain c) {pick : List Nat → Option Nat} (hp : PickOK pick)
+theorem dec_tryEnqueue {c : Cfg} (hc : Retrying c) {pick : List Nat → Option Nat} (hp : PickOK pick)
     (s : St) (w : Nat) (hw : w < s.ws.length) : Dec s (tryEnqueue c pick s w).1 := by
   unfold tryEnqueue
-  simp only [giveUp_eq hc.toRetrying]
+  simp only [giveUp_eq hc, putBack_eq hc]
   have hm := nextInputs_measure s
   have hlen : (nextInputs s).2.ws.length = s.ws.length := by
     unfold nextInputs
@@ -198,11 +200,14 @@ theorem dec_tryEnqueue {c : Cfg} (hc : Plain c) {pick : List Nat → Option Nat}
     obtain ⟨fr, inp⟩ := p
     simp only at hph
     have hw' : w < s'.ws.length := by rw [hlen]; exact hw
-    simp only [hc.noFn, Bool.false_eq_true, if_false]
     by_cases hcl : (getW s' w).closed = true
     · simp only [hcl, if_true]
       exact Dec.of_eq (by rw [unused_nc, hn]) (by rw [unused_phi hc]; omega)
     · simp only [hcl, Bool.false_eq_true, if_false]
+      by_cases hrf : c.refuse w inp = true
+      · simp only [hrf, if_true]
+        exact Dec.of_eq (by rw [unused_nc, hn]) (by rw [unused_phi hc]; omega)
+      simp only [hrf, Bool.false_eq_true, if_false]
       by_cases ha : (getW s' w).alive = true
       · simp only [ha, if_true]
         obtain ⟨n1, p1⟩ := doEnqueue_measure s' w inp hw'
@@ -212,7 +217,7 @@ theorem dec_tryEnqueue {c : Cfg} (hc : Plain c) {pick : List Nat → Option Nat}
         rcases h1 with h1 | ⟨h1, _⟩
         · exact Or.inl (by rw [unused_nc]; omega)
         · have := markDead_nc hc s' w hw' (by simpa using hcl)
-          have d2 := (dec_settle hc hp (s'.ws.length + 1) (markDead c s' w)).nc_le
+          have d2 := (dec_settle hc hp ((s'.ws.length + 1) * (s'.ws.length + 1)) [] (markDead c s' w)).nc_le
           unfold handleDeath at h1
           omega
 
@@ -232,7 +237,7 @@ theorem setW_sdec (s : St) (w : Nat) (x : Worker) (hw : w < s.ws.length) (hc : x
   exact Or.inr ⟨nc_setW_same s w x hc, by rw [phi_setW]; simp only [phi]; omega⟩
 
 /-- reading from the queue of `w`: never increases the measure; decreases it when the queue was ready -/
-theorem onPoll_measure {c : Cfg} (hc : Plain c) {pick : List Nat → Option Nat} (hp : PickOK pick)
+theorem onPoll_measure {c : Cfg} (hc : Retrying c) {pick : List Nat → Option Nat} (hp : PickOK pick)
     (s : St) (w : Nat) (hw : w < s.ws.length) :
     Dec s (onPoll c pick s w) ∧ (ready s w = true → SDec s (onPoll c pick s w)) := by
   unfold onPoll ready
@@ -300,7 +305,7 @@ def effective (s : St) : Ev → Bool
   | .poll [] => false
   | .poll (w :: _) => running s && s.err.isNone && ready s w
 
-theorem step_measure {c : Cfg} (hc : Plain c) {pick : List Nat → Option Nat} (hp : PickOK pick)
+theorem step_measure {c : Cfg} (hc : Retrying c) {pick : List Nat → Option Nat} (hp : PickOK pick)
     (s : St) (ev : Ev) : Dec s (step c pick s ev) ∧ (effective s ev = true → SDec s (step c pick s ev)) := by
   cases ev with
   | work w =>
